@@ -447,10 +447,6 @@ func exec(n *Nodis, conn *redis.Conn, cmd redis.Command) {
 		conn.WriteError("EXECABORT Transaction discarded because of previous errors.")
 		return
 	}
-	if len(conn.Commands) == 0 {
-		conn.WriteArray(0)
-		return
-	}
 	var watchKeysNoChanged = true
 	tx := newTx(n.store)
 	defer tx.commit()
@@ -463,6 +459,10 @@ func exec(n *Nodis, conn *redis.Conn, cmd redis.Command) {
 	})
 	if !watchKeysNoChanged {
 		conn.WriteBulkNull()
+		return
+	}
+	if len(conn.Commands) == 0 {
+		conn.WriteArray(0)
 		return
 	}
 	conn.State |= redis.MultiCommit
